@@ -138,7 +138,7 @@ fn gen_stream(stream: &str, n: u64, seed: u64) {
             for _ in 0..n { writeln!(w, "mathlaw int {}", (r.next() as i64) >> r.below(64)).unwrap();
                 // half of the doubles are ORDINARY decimals (95.97, 141.73, -3.125): where a hand-written shortcut for a library function is off by one ulp
                 let ordinary = |r: &mut rng::Rng| (r.below(40_000_000) as f64) / (*r.pick(&[100.0, 1000.0, 7.0, 10000.0, 3.0])) - (if r.chance(1, 4) { 1000.0 } else { 0.0 });
-                let x = if r.chance(1, 2) { ordinary(&mut r) } else { gen::gen_num(&mut r) }; let y = if r.chance(1, 3) { ordinary(&mut r) } else { gen::gen_num(&mut r) };
+                let x = if r.chance(1, 2) { ordinary(&mut r) } else { gen::gen_num(&mut r) }; let y = match r.below(4) { 0 => ordinary(&mut r), 1 => *r.pick(&[1.0 / 3.0, 0.5, 2.0, 3.0, -1.0, 0.25, 1.5, 2.0 / 3.0, -0.5, 1.0, 0.0]), _ => gen::gen_num(&mut r) };
                 writeln!(w, "mathlaw num {:016x} {:016x}", x.to_bits(), y.to_bits()).unwrap(); } }
         "poslaw" => for _ in 0..n {
             let s: String = match r.below(3) { 0 => gen::gen_str(&mut r), _ => { let k = r.below(9); (0..k).map(|_| *r.pick(&['a', 'b', 'ä', 'ß', '𝄞', 'c', ' ', 'e', '\u{301}', 'Σ', '1'])).collect() } };
